@@ -156,6 +156,51 @@ def h_roundtrip(ctx, seq, kind):
     ctx.select_chain('mainnet')
 
 
+def h_rechain(ctx, chain_a, chain_b, kind):
+    """the same script converted under chain A and then, in the same process, under chain B"""
+    W = ctx.mod('bitcoin.wallet')
+    S = ctx.script
+    n = 32 if kind == 'p2wsh' else 20
+    payload = ctx.bytes('payload', n)
+    script = S.CScript(_script(ctx, kind, payload))
+    with _Patched(ctx) as pat:
+        texts = []
+        for chain in (chain_a, chain_b, chain_a):
+            ctx.select_chain(chain)
+            t = TABLE[chain]
+            addr = W.CBitcoinAddress.from_scriptPubKey(script)
+            text = ctx.to_str(addr)
+            if kind in ('p2pkh', 'p2sh'):
+                ver = t['pk' if kind == 'p2pkh' else 'sh']
+                ctx.check(ctx.and_(addr.nVersion == ver, text == _b58check_text(ctx, pat, ver, payload)),
+                          'class / prefix / payload as prescribed for the chain', detail='after switching %s -> %s' % (chain_a, chain_b))
+            else:
+                ref = RB.encode_address(ctx, t['hrp'], 0, [payload[i] for i in range(n)])
+                ctx.check(text == ctx.str_concat(t['hrp'] + '1', ctx.str_from_table(RB.CHARSET, ref)),
+                          'class / prefix / payload as prescribed for the chain', detail='after switching %s -> %s' % (chain_a, chain_b))
+            s2 = addr.to_scriptPubKey()
+            ctx.check(s2 == script, 'roundtrip: script -> address -> text -> address -> script')
+    ctx.select_chain('mainnet')
+
+
+def h_padded(ctx, chain, plen):
+    """bech32 text whose data part carries one surplus all-zero group (exactly five padding bits) under a valid checksum"""
+    W = ctx.mod('bitcoin.wallet')
+    ctx.select_chain(chain)
+    hrp = TABLE[chain]['hrp']
+    prog = ctx.bytes('prog', plen)
+    data = [0] + RB.convert_8to5(ctx, [prog[i] for i in range(plen)])
+    if (plen * 8) % 5 == 0:
+        data = data + [0]
+    else:
+        return
+    syms = data + RB.create_checksum(ctx, hrp, data)
+    text = ctx.str_concat(hrp + '1', ctx.str_from_table(RB.CHARSET, syms))
+    with _Patched(ctx):
+        _refused(ctx, W, text, 'non-canonical bech32 padding refused with CBitcoinAddressError')
+    ctx.select_chain('mainnet')
+
+
 def h_variants(ctx, chain, variant):
     """P2PKH converter: non-canonical pushes and bare pubkeys"""
     W = ctx.mod('bitcoin.wallet')
@@ -259,7 +304,7 @@ def h_arbitrary(ctx, chain, n):
     ctx.select_chain('mainnet')
 
 
-HARNESSES = {'roundtrip': h_roundtrip, 'variants': h_variants, 'cross': h_cross, 'witver': h_witver, 'v0len': h_v0len, 'b58len': h_b58len,
+HARNESSES = {'rechain': h_rechain, 'padded': h_padded, 'roundtrip': h_roundtrip, 'variants': h_variants, 'cross': h_cross, 'witver': h_witver, 'v0len': h_v0len, 'b58len': h_b58len,
              'arbitrary': h_arbitrary}
 
 
@@ -283,6 +328,11 @@ def instances(tier):
                 differ = (ta['hrp'] != tb['hrp']) if k in ('p2wpkh', 'p2wsh') else (ta['pk'] != tb['pk'])
                 if differ:
                     out.append(dict(h='cross', p=dict(chain_a=a, chain_b=b, kind=k)))
+    for a, b in (('mainnet', 'testnet'), ('testnet', 'mainnet'), ('mainnet', 'regtest'), ('regtest', 'signet'), ('signet', 'mainnet')):
+        for k in kinds:
+            out.append(dict(h='rechain', p=dict(chain_a=a, chain_b=b, kind=k)))
+    for chain in CHAINS:
+        out.append(dict(h='padded', p=dict(chain=chain, plen=20)))
     for ver in range(1, 17):
         out.append(dict(h='witver', p=dict(chain=CHAINS[ver % 4], ver=ver, plen=[20, 32, 2, 40][ver % 4])))
     for plen in (2, 19, 21, 31, 33, 40):
